@@ -131,7 +131,30 @@ def fact_register_names():
     return coq_list([coq_string(n) for n in out])
 
 
+def fact_loops():
+    """the for-loops of generate_cutting_experiments in source order as '<nesting depth>:<target> in <iterable>'."""
+    fn = _fn("generate_cutting_experiments")
+    out = []
+
+    def walk(node, depth):
+        for ch in ast.iter_child_nodes(node):
+            if isinstance(ch, (ast.FunctionDef, ast.AsyncFunctionDef, ast.ClassDef, ast.Lambda)):
+                continue
+            if isinstance(ch, ast.For):
+                out.append((ch.lineno, f"{depth}:{ast.unparse(ch.target)} in {ast.unparse(ch.iter)}"))
+                walk(ch, depth + 1)
+            elif isinstance(ch, (ast.ListComp, ast.DictComp, ast.GeneratorExp, ast.SetComp)):
+                continue
+            else:
+                walk(ch, depth)
+
+    walk(fn, 0)
+    out.sort()
+    return coq_list([coq_string(t) for _, t in out])
+
+
 FACTS = [
+    ("c05_loops", "list string", fact_loops),
     ("c05_group_loop_calls", "list string", fact_group_loop_calls),
     ("c05_f2_guard", "list string", fact_f2_guard),
     ("c05_pass_order", "list string", fact_pass_order),
